@@ -195,7 +195,8 @@ def run_op(cls, nodes, op):
 
 def run_one(c, clsname=None):
     clsname = clsname or c["cls"]
-    cls = CLASSES[clsname]
+    import implutil
+    cls = implutil.adv(CLASSES[clsname])
     nodes = setup(cls, c["heap"])
     H.counter = 0
     H.idx_faults = frozenset(c["faults"][0])
